@@ -6,7 +6,9 @@ cd /repo || exit 2
 if [ -n "$(git status --porcelain --untracked-files=no)" ]; then echo "/repo has uncommitted changes, refusing"; exit 2; fi
 if ! git apply --3way $P 2>/tmp/selftest.apply.err && ! git apply $P 2>>/tmp/selftest.apply.err; then echo "SELFTEST $ID $(basename $(dirname $P))/$(basename $P): patch does not apply: $(tail -1 /tmp/selftest.apply.err)"; git reset -q; git checkout -- . ; exit 3; fi
 git reset -q
+cp /verif/evidence/$ID.json /tmp/selftest.$ID.evidence.keep 2>/dev/null   # evidence describes the unchanged tree: put it back afterwards
 cd /verif && VERIF_KEEP= ./run.sh $ID $TIER > /tmp/selftest.$ID.out 2>&1; rc=$?
+cp /tmp/selftest.$ID.evidence.keep /verif/evidence/$ID.json 2>/dev/null
 git -C /repo checkout -- .
 sig=$(grep -A1 "^VIOLATION" /tmp/selftest.$ID.out | grep signature | head -3 | sed 's/^ *signature: //' | tr '\n' ';')
 echo "SELFTEST $ID $P exit=$rc $( [ $rc = 1 ] && echo CAUGHT || echo MISSED ) $sig"
